@@ -17,7 +17,7 @@ def hx(b):
 class C13(Prop):
     id = "C13"
     title = "Input framing ignores packet boundaries and survives any byte stream"
-    lean_modules = ["NV.C13.Props", "NV.C13.Witness", "NV.C13.Negative", "NV.C13.TableTie", "NV.C13.XTable", "NV.C13.Lemmas18", "NV.C13.Lemmas19", "NV.C13.Lemmas20"]
+    lean_modules = ["NV.C13.Props", "NV.C13.Witness", "NV.C13.Negative", "NV.C13.TableTie", "NV.C13.XTable", "NV.C13.Lemmas18", "NV.C13.Lemmas19", "NV.C13.Lemmas20", "NV.C13.Lemmas21"]
     theorems = ["NV.C13.ts_layout", "NV.C13.sb_array_has_room", "NV.C13.sb_in_bounds", "NV.C13.copy_chars_expansion",
                 "NV.C13.buffer_writes_in_bounds", "NV.C13.space_rule_sufficient", "NV.C13.space_rule_numbers",
                 "NV.C13.input_never_overflows", "NV.C13.segmentation_independent",
@@ -33,10 +33,12 @@ class C13(Prop):
                 "NV.C13.cc_table_tie", "NV.C13.cc_table_states", "NV.C13.cc_table_total", "NV.C13.cc_table_no_crash", "NV.C13.edit_bytes_tie", "NV.C13.x_table_tie", "NV.C13.x_table_complete",
                 "NV.C13.reframeLoop_len", "NV.C13.reframe_N", "NV.C13.setCall_N", "NV.C13.endInput_N",
                 "NV.C13.reframe_is_line_framing", "NV.C13.getUserData_evok", "NV.C13.run_events_safe",
-                "NV.C13.reframe_exact", "NV.C13.typeahead_lines_after_mode_end", "NV.C13.workerChunks_len", "NV.C13.doWpipe_rinv"]
+                "NV.C13.reframe_exact", "NV.C13.typeahead_lines_after_mode_end", "NV.C13.workerChunks_len", "NV.C13.doWpipe_rinv",
+                "NV.C13.getUserDataH_cases", "NV.C13.getUserDataH_keeps", "NV.C13.holdRead_true", "NV.C13.discard_only_unfinished",
+                "NV.C13.typeahead_never_discarded", "NV.C13.readTail_rinv"]
     witness_theorems = ["NV.C13.sb_terminator_overflows_exact_array", "NV.C13.ayt_returns_to_data",
                         "NV.C13.full_sb_payload_is_not_text", "NV.C13.ascii_spec_example",
-                        "NV.C13.burst_check", "NV.C13.telnet_lines_delivered_Full_false"]
+                        "NV.C13.burst_check"]
     consts = [
         ("maxText", "MAX_TEXT"), ("sbSize", "SB_SIZE"),
         ("sbBufSize", "sizeof(((interactive_t*)0)->sb_buf)"),
@@ -134,6 +136,10 @@ class C13(Prop):
         out.append("/-- C: get_user_data `if (text_space < MAX_TEXT / N)` (both tests) -/\ndef compactDiv : Nat := %d" % v)
         v = need("space after discard", r"text_space = MAX_TEXT / (\d+);", count=1)
         out.append("/-- C: get_user_data, after discard `text_space = MAX_TEXT / N` -/\ndef discardSpaceDiv : Nat := %d" % v)
+        ms = re.findall(r"if \(\(MAX_TEXT - len - 1\) / (\d+) < MAX_TEXT / (\d+) && !\(evt && evt->buffer\) && cmd_in_buf \(ip\)\)", src)
+        if len(ms) != 1:
+            raise X.TieBroken("guard:hold test", "cannot locate the hold test of get_user_data `if ((MAX_TEXT - len - 1) / N < MAX_TEXT / M && !(evt && evt->buffer) && cmd_in_buf (ip))` (matched %r)" % (ms,))
+        out.append("/-- C: get_user_data hold test `(MAX_TEXT - len - 1) / N < MAX_TEXT / M && .. && cmd_in_buf (ip)` -/\ndef holdDiv : Nat := %s\ndef holdCmpDiv : Nat := %s" % ms[0])
         v = need("cut threshold", r"if \(ip->text_end > MAX_TEXT - (\d+)\)", count=1)
         out.append("/-- C: first_cmd_in_buf `if (ip->text_end > MAX_TEXT - N)` -/\ndef cutMargin : Nat := %d" % v)
         v = need("ascii space", r"text_space = MAX_TEXT - ip->text_end - (\d+);", count=1)
@@ -181,7 +187,7 @@ class C13(Prop):
         o3 = order("get_user_data telnet store", "case PORT_TELNET:\n          /*\n           * Process TELNET protocol", "case PORT_ASCII:\n          {",
                    [("copyChars", "size_t copied = copy_chars ("), ("deadTest", "if (copied == (size_t) -1)"),
                     ("advanceEnd", "ip->text_end += copied;"), ("terminator", "ip->text[ip->text_end] = '\\0';"),
-                    ("cmdFlag", "if (cmd_in_buf (ip))")])
+                    ("cmdFlag", "if (cmd_in_buf (ip))"), ("snoop", "receive_snoop (buf, ip->snoop_by->ob);")])
         out.append("/-- C: order of the statements of get_user_data's PORT_TELNET branch -/\ndef telnetStoreOrder : List String := [%s]"
                    % ", ".join('"%s"' % x for x in o3))
         cfg = open(os.path.join(bdir, "config.h"), errors="replace").read()
@@ -575,6 +581,15 @@ def ccTable : List CcCfg := [
         B.append(E.Case("b-single-then-line-partial-move", ["port telnet", "iflag single", "chunk " + hx(b"ab"), "iflag line", "extract",
                         "chunk " + hx(b"c\r\n"), "drain", "iflag single", "chunk " + hx(b"\0\0xy"), "iflag line", "extract", "extract",
                         "chunk " + hx(b"z\r\n"), "drain"], {"origin": "boundary"}))
+        # a snooper on the input path: receive_snoop() is one more callback of a telnet read (fix eca4aec)
+        B.append(E.Case("b-snoop-ok", ["port telnet", "snoop on", "chunk " + hx(b"look\r\nno"), "drain", "chunk " + hx(b"rth\r\n"), "drain"], {"origin": "boundary", "port": "telnet"}))
+        B.append(E.Case("b-snoop-err", ["cb 0 err", "port telnet", "snoop on", "chunk " + hx(b"look\r\n"), "extract", "chunk " + hx(b"n\r\n"), "drain"], {"origin": "boundary", "port": "telnet"}))
+        B.append(E.Case("b-snoop-dest", ["cb 0 dest", "port telnet", "snoop on", "chunk " + hx(b"look\r\n"), "drain"], {"origin": "boundary", "port": "telnet"}))
+        B.append(E.Case("b-snoop-noecho-ttype", ["cb 1 err", "port telnet", "snoop on", "chunk " + hx(tt + b"a\r\n"), "inputto noecho", "chunk " + hx(b"pw\r\n"), "serve", "chunk " + hx(b"x\0y\r\n"), "drain"], {"origin": "boundary", "port": "telnet"}))
+        # the hold test (fix 57d7cb1): reads are held back while the buffer is full of commands typed ahead
+        B.append(E.Case("b-hold-reads", ["port telnet", "send " + hx(b"n\r\n" * 700), "read", "read", "read", "read", "read", "extract", "read", "drain", "read", "finish", "drain"], {"origin": "boundary", "port": "telnet"}))
+        B.append(E.Case("b-hold-single-char", ["port telnet", "getchar", "send " + hx(b"k" * 2500), "read", "read", "read", "read", "read", "serve", "read", "finish", "drain"], {"origin": "boundary", "port": "telnet"}))
+        B.append(E.Case("b-no-hold-overlong-line", ["port telnet", "send " + hx(b"L" * 2500 + b"\r\nok\r\n"), "read", "read", "read", "read", "read", "finish", "drain"], {"origin": "boundary", "port": "telnet"}))
         # get_char() / input_to() / serve: real set_call, call_function_interactive, reframe_single_char_input
         def raw(name, lines):
             B.append(E.Case("b-" + name, ["port telnet"] + lines, {"origin": "boundary", "port": "telnet"}))
@@ -628,9 +643,14 @@ def ccTable : List CcCfg := [
                 if rng.chance(2, 3):
                     s += b"\r\n"
                 cbs = self.g_cbs(rng, 1, 4)
+                snoop = rng.chance(1, 4)
                 for how in ("one", "few", "many", "bytes"):
-                    C.append(self.mk_case("%s-%s" % (cid, how), "telnet", self.segment(rng, s, how), rng,
-                                          rng.choice(["end", "each", "rand"]), cbs=cbs))
+                    c = self.mk_case("%s-%s" % (cid, how), "telnet", self.segment(rng, s, how), rng,
+                                     rng.choice(["end", "each", "rand"]), cbs=cbs)
+                    if snoop:       # a snooper: receive_snoop() is one more callback of every read that got data
+                        k = c.lines.index("port telnet")
+                        c.lines.insert(k + 1, "snoop on")
+                    C.append(c)
             elif kind == "tlong":
                 body = b""
                 for _ in range(rng.range(1, 4)):
@@ -722,6 +742,8 @@ def ccTable : List CcCfg := [
             for l in c.lines:
                 if l.startswith("cb "):
                     h["scripted_" + l.split()[-1]] = h.get("scripted_" + l.split()[-1], 0) + 1
+                elif l == "snoop on":
+                    h["snooped_cases"] = h.get("snooped_cases", 0) + 1
                 elif l.startswith(("getchar", "inputto", "serve")):
                     h["op_" + l.split()[0]] = h.get("op_" + l.split()[0], 0) + 1
                 elif l == "iflag single":
